@@ -127,7 +127,7 @@ class World:
 # The spec's symbolic payloads stand for real binary payloads: every byte value, all three base64 padding shapes,
 # and bytes whose standard base64 text contains '+' and '/' (round-4 seed C18d: url-safe alphabet on the server side,
 # standard alphabet in cascade.gateway.api.decoded_result).
-REAL = {"x": b"\xfb\xff\xfe" + bytes(range(256)) + b"\xff\xe0>?", "y": b"\x00plain\xff\xfe"}
+REAL = {"x": b"\xfb\xff\xfe" + bytes(range(256)) + b"\xff\xe0>?", "y": b"\x00plain\xff\xfe", "e": b""}   # "e": a legal, empty result
 SYM = {v: k for k, v in REAL.items()}
 
 
